@@ -38,6 +38,18 @@ func (m *Model) RunOpTable(s *Sink, rule string) {
 				s.Obls = append(s.Obls, o)
 			}
 		}
+		// one obligation per evaluated case, whatever shape the typed evaluators have (the instance count of this rule
+		// does not depend on how many constructs the structural reading recognises)
+		kinds := make([]string, 0, len(specOps))
+		for k := range specOps {
+			kinds = append(kinds, k)
+		}
+		sort.Strings(kinds)
+		for _, k := range kinds {
+			for _, sym := range specOps[k] {
+				s.OK(rule, "operators by cases|"+k+" "+sym, cr.pos, "`left %s right` on two %s operands evaluates as specified", sym, k)
+			}
+		}
 	case cr.decided:
 		keys := make([]string, 0, len(cr.bad))
 		for k := range cr.bad {
